@@ -128,6 +128,8 @@ REPL = ['(', ')', '=', ':', '!', '&&', '||', '|', "'", '"', '@[', ']@', '@[S]@',
         'exit(0)', 'exit(3)', 'quit()', "__import__('sys').exit(7)",
         # values that depend on the directory structure: they can only be validated after the sandbox exists (or after the home directories are known)
         '@[PABS]@', '@[PHOME]@', '@[PRES]@', '@[PABS2]@/x',
+        # names of builtin symbols and of symbols the prelude defines (as the name of a definition: defined twice)
+        'EXACTLY_HOME', 'EXACTLY_RESULT', 'S',
         '"@[EXACTLY_ACT]@("', '"@[EXACTLY_TMP]@["', '@[EXACTLY_HOME]@', '"@[EXACTLY_HOME]@["', '"@[P]@("', '@[EXACTLY_RESULT]@/x']
 
 
